@@ -528,3 +528,117 @@ Proof.
   exists S. split; [apply rs_char; exact RS|].
   destruct (dwell (lx l) (cf_ceil cfg) <=? ssub now S) eqn:D; [lia | discriminate R2].
 Qed.
+
+(** ---- one stamp, or a draining backlog, never releases ---------------------------------------- *)
+(** ops that leave the proof stamp of the link they target alone and do not reset it *)
+Definition keeps_proof (o : op) : bool :=
+  match o with
+  | OReset _ => false
+  | OSrtlaAck _ known _ => negb known
+  | OEcho _ w ts now => negb (echo_ok w ts now)
+  | _ => true
+  end.
+
+(** a history segment during which link [i] earns no new proof after stamp [p]:
+    decisions (guard on, clock not before the stamp, ceiling a u64) and any environment
+    op that is not a new proof / reset for link [i] — in-flight may drain freely *)
+Definition calm (i : nat) (p : Z) (o : op) : Prop :=
+  match o with
+  | OSelect _ now cfg _ => cf_guard cfg = true /\ p <= now /\ 0 < now /\ cf_ceil cfg <= u64_max
+  | _ => targets o i = true -> keeps_proof o = true
+  end.
+
+(** latched on stamp [p], and any rejoin run in progress started after the stamp *)
+Definition held (p : Z) (l : link) : Prop :=
+  g_latched (lg l) <> 0 /\ a_proof (la l) = p /\ (g_recovery (lg l) = 0 \/ p <= g_recovery (lg l)).
+
+Lemma eff_le_ceil : forall x ceil, eff_stale x ceil <= ceil.
+Proof. intros. unfold eff_stale. destruct (x_rttpos x); lia. Qed.
+
+Lemma latch_hold : forall a x now mn ceil g p,
+  g_latched g <> 0 -> a_proof a = p -> (g_recovery g = 0 \/ p <= g_recovery g) ->
+  p <= now -> 0 < now -> ceil <= u64_max ->
+  g_latched (latch_step a x now mn ceil g) <> 0 /\
+  (g_recovery (latch_step a x now mn ceil g) = 0 \/ p <= g_recovery (latch_step a x now mn ceil g)).
+Proof.
+  intros a x now mn ceil g p L P R Hp Hnow Hc.
+  split.
+  - intro Z0. destruct (latch_release a x now mn ceil g L Z0) as [F D].
+    unfold proof_fresh in F. unfold dwell, sat_mul_u64, sat_u64, clamp in D.
+    pose proof (eff_le_ceil x ceil) as E.
+    change STALL_REJOIN_DWELL_MULT with 2 in D.
+    destruct (Z.eqb_spec (g_recovery g) 0); unfold ssub in *; lia.
+  - unfold latch_step.
+    repeat match goal with |- context [if ?c then _ else _] => destruct c eqn:? end;
+      cbn [g_recovery]; try lia.
+Qed.
+
+Lemma calm_step : forall i p s o l,
+  nth_error s i = Some l -> held p l -> calm i p o ->
+  exists l', nth_error (fst (step s o)) i = Some l' /\ held p l'.
+Proof.
+  intros i p s o l Hn (L & P & R) C.
+  destruct (op_target o) eqn:T.
+  - assert (Tn : op_target o <> None) by congruence.
+    rewrite (step_env_nth s o i Tn), Hn. cbn [option_map].
+    destruct (targets o i) eqn:Tg; [|exists l; split; [reflexivity | repeat split; assumption]].
+    exists (env_link o l). split; [reflexivity|].
+    assert (K : keeps_proof o = true) by (destruct o; try discriminate; apply C; exact Tg).
+    destruct o; try discriminate; cbn [keeps_proof] in K;
+      unfold held; cbn [env_link set_acct set_foreign la lg with_log with_proof with_recv with_conn with_force a_proof];
+      try (repeat split; assumption).
+    + destruct known; [discriminate|]. cbn [andb]. repeat split; assumption.
+    + destruct (echo_ok waiting ts now); [discriminate|]. cbn [la lg with_recv a_proof]. repeat split; assumption.
+  - destruct o; try discriminate. cbn [calm] in C. destruct C as (Gd & Hp & Hnow & Hc).
+    destruct (step_select_nth s last now cfg ins i l Hn) as (l' & E & (A & X & U & _)).
+    exists l'. split; [exact E|].
+    apply ungate_fields in U as (U1 & U2 & _).
+    unfold gate_guard in *. rewrite Gd in *.
+    pose proof (pull_step_fields (la l) (lx l) now (cf_min cfg) (cf_ceil cfg) (lg l)) as (P1 & P2 & _).
+    destruct (latch_hold (la l) (lx l) now (cf_min cfg) (cf_ceil cfg)
+               (pull_step (la l) (lx l) now (cf_min cfg) (cf_ceil cfg) (lg l)) p) as [H1 H2];
+      try congruence; try lia.
+    unfold held. rewrite U1, U2, A. repeat split; assumption.
+Qed.
+
+Theorem single_proof_no_release : forall ops i p s l,
+  nth_error s i = Some l -> held p l -> Forall (calm i p) ops ->
+  exists l', nth_error (run s ops) i = Some l' /\ held p l'.
+Proof.
+  induction ops as [|o t IH]; intros i p s l Hn H C; [exists l; auto|].
+  inversion C; subst. cbn [run].
+  destruct (calm_step i p s o l Hn H H2) as (l1 & E & H1).
+  apply (IH i p _ l1 E H1 H3).
+Qed.
+
+(** ---- the windows --------------------------------------------------------------------------------- *)
+Lemma eff_window_spec : forall x ceil,
+  eff_stale x ceil =
+  if x_rttpos x then Z.min (Z.max (sat_mul_u64 (x_rttms x) 4) 1000) ceil else ceil.
+Proof. reflexivity. Qed.
+
+Lemma eff_window_bounds : forall x ceil,
+  (x_rttpos x = false -> eff_stale x ceil = ceil) /\
+  (ceil < 1000 -> eff_stale x ceil = ceil) /\
+  (1000 <= ceil -> x_rttpos x = true -> 1000 <= eff_stale x ceil <= ceil) /\
+  (x_rttpos x = true -> 0 <= x_rttms x -> 4 * x_rttms x <= u64_max ->
+   eff_stale x ceil = Z.min (Z.max (4 * x_rttms x) 1000) ceil).
+Proof.
+  intros. unfold eff_stale, sat_mul_u64, sat_u64, clamp.
+  change STALL_STALE_RTT_MULT with 4. change STALL_STALE_FLOOR_MS with 1000.
+  destruct (x_rttpos x); repeat split; intros; try discriminate; lia.
+Qed.
+
+Lemma pull_window_spec : forall x ceil,
+  pull_window x ceil =
+  Z.min (if x_rttpos x then Z.max (sat_mul_u64 (x_rttms x) 2) 250 else 250) (eff_stale x ceil).
+Proof. reflexivity. Qed.
+
+Lemma dwell_spec : forall x ceil, dwell x ceil = sat_mul_u64 (eff_stale x ceil) 2.
+Proof. reflexivity. Qed.
+
+Lemma dwell_twice : forall x ceil, 0 <= eff_stale x ceil -> 2 * eff_stale x ceil <= u64_max ->
+  dwell x ceil = 2 * eff_stale x ceil.
+Proof.
+  intros. unfold dwell, sat_mul_u64, sat_u64, clamp. change STALL_REJOIN_DWELL_MULT with 2. lia.
+Qed.
